@@ -73,12 +73,13 @@ def tla(v):
     raise TypeError(v)
 
 
-def stream(kind, agg, fl, maxsize=0, noview=False):
+def stream(kind, agg, fl, maxsize=0, noview=False, ncb=0):
     cls = agg if agg in ("hist", "expo") else "plain"
     vals, bounds = ALPHA[(kind in SIGNED, fl, cls)]
     model = {"kind": kind, "agg": agg, "na": 2, "vals": vals, "unit": 4 if fl else 1, "bounds": bounds,
-             "ncb": 2 if kind in ASYNC else 1}
-    name = "%s.%s.%s%s%s" % (kind, agg, "f" if fl else "i", ".m%d" % maxsize if maxsize else "", ".nv" if noview else "")
+             "ncb": ncb or (2 if kind in ASYNC else 1)}
+    name = "%s.%s.%s%s%s%s" % (kind, agg, "f" if fl else "i", ".m%d" % maxsize if maxsize else "", ".nv" if noview else "",
+                               ".cb%d" % ncb if ncb else "")
     return {"name": name, "model": model, "extra": {"name": "s." + name, "maxsize": maxsize, "noview": noview, "meter": 0}}
 
 
@@ -95,18 +96,26 @@ def configs(tier, seed):
     if tier == "thorough":
         extra += [stream("Gauge", "expo", True, maxsize=2), stream("Counter", "expo", True, maxsize=2),
                   stream("Gauge", "last", False, noview=True), stream("ObsGauge", "last", True, noview=True),
-                  stream("UpDownCounter", "sum", True, noview=True), stream("ObsUpDownCounter", "sum", False, noview=True)]
+                  stream("UpDownCounter", "sum", True, noview=True), stream("ObsUpDownCounter", "sum", False, noview=True),
+                  stream("ObsCounter", "sum", False, ncb=3), stream("ObsGauge", "last", True, ncb=3)]
     return out + extra
 
 
-def bounds_of(c, tier):
-    """(MaxCycles, MaxOps): 3 collection points with <= 2 operations each; the thorough tier adds a
-    fourth collection point where the state space allows it"""
+def plan(c, tier):
+    """(MaxCycles, MaxOps, K): bounds of the exploration and edge sampling (every K-th Collect edge is
+    replayed, offset by the seed, so seeds 1..K cover all of them).
+    quick   : 3 collection points with <= 2 operations each; sums/gauges in full, the rest sampled.
+    thorough: a fourth collection point for the synchronous kinds (float64 sums 1/2, int64 histograms 1/4,
+              float64 histograms keep 3 points in full); asynchronous: 3 points, every second edge."""
+    m = c["model"]
+    is_async, fl, bags = m["kind"] in ASYNC, m["unit"] != 1, m["agg"] in ("hist", "expo")
     if tier != "thorough":
-        return 3, 2
-    if c["model"]["kind"] in ASYNC:
-        return 3, 2
-    return (4, 2) if c["model"]["agg"] in ("sum", "last") else (3, 3)
+        return 3, 2, (12 if is_async else 3 if bags else 1)
+    if is_async:
+        return 3, 2, 2
+    if bags:
+        return (3, 2, 1) if fl else (4, 2, 4)
+    return 4, 2, (2 if fl else 1)
 
 
 # ---------------------------------------------------------------------------- classification
@@ -147,8 +156,14 @@ def run(ctx):
             counters[prefix + k] = counters.get(prefix + k, 0) + v
 
     def validate(direction, chunk, idx):
-        viols, accepted = ctx.validate_trace(S, "Trace_Temporality", "Trace_Temporality.cfg", chunk, timeout=3000,
-                                             name="trace-%s-%d" % (direction, idx))
+        name = "trace-%s-%d" % (direction, idx)
+        viols, accepted = ctx.validate_trace(S, "Trace_Temporality", "Trace_Temporality.cfg", chunk, timeout=3000, name=name)
+        try:
+            os.remove(os.path.join(ctx.work, "tlc-" + name, "trace.ndjson"))  # TLC's copy of the chunk
+            if not viols:
+                os.remove(chunk)
+        except OSError:
+            pass
         return direction, chunk, viols, accepted
 
     # ---- spec -> code: explore + replay, one (kind, aggregation, number type) at a time
@@ -156,15 +171,18 @@ def run(ctx):
 
     def explore_and_replay(ic):
         i, c = ic
-        mc, mo = bounds_of(c, ctx.tier)
+        mc, mo, k = plan(c, ctx.tier)
         cov = c["name"] in (cfgs[0]["name"], next(x["name"] for x in cfgs if x["model"]["kind"] in ASYNC))
         r = ctx.tlc(S, "MC_Temporality", "MC_Temporality.cfg", want_edges=True, name="E-" + c["name"], timeout=2400,
-                    defines={"CFG": tla(c["model"]), "MAXCYCLES": mc, "MAXOPS": mo}, coverage=cov, count=False)
+                    defines={"CFG": tla(c["model"]), "MAXCYCLES": mc, "MAXOPS": mo}, coverage=cov, count=False,
+                    deque=True)  # in-memory state queue: TLC's disk queue cannot serialise the lazily built st
         trace = os.path.join(ctx.work, "replay-%s.ndjson" % c["name"])
         resf = os.path.join(ctx.work, "replay-%s.json" % c["name"])
         hcfg = dict(c["model"], **c["extra"])
-        ctx.run([binp, "replay", "-edges", r["edges_file"], "-cfg", json.dumps(hcfg), "-out", trace, "-res", resf],
-                timeout=2400)
+        ctx.run([binp, "replay", "-edges", r["edges_file"], "-cfg", json.dumps(hcfg), "-out", trace, "-res", resf,
+                 "-sample", str(k)], timeout=2400)
+        r["want_executed"] = sum(1 for e in range(1, (r.get("edges") or 0) + 1) if k <= 1 or (e + ctx.seed) % k == 0)
+        os.remove(r["edges_file"])  # (tlc.out of the run keeps the EDGE lines)
         return c, r, trace, json.load(open(resf)), cov
 
     replay_traces = []
@@ -177,14 +195,14 @@ def run(ctx):
             ctx.transitions += r["generated"]
             if cov:
                 zero_cov = set(r["zero_cov"]) if zero_cov is None else (zero_cov & set(r["zero_cov"]))
-            if res["executed"] != r.get("edges"):
-                ctx.note_inconclusive("replay of %s executed %s of %s edges" % (c["name"], res["executed"], r.get("edges")))
+            if res["executed"] != r["want_executed"] or not res["executed"]:
+                ctx.note_inconclusive("replay of %s executed %s of %s sampled edges" % (c["name"], res["executed"], r["want_executed"]))
             edges_total += res["executed"]
             ctx.traces_validated += res["executed"]
             ctx.evaluations += res["evaluations"]
             add_counters(res, "replay_")
             per_cfg[c["name"]] = {"distinct": r["distinct"], "generated": r["generated"], "edges": r.get("edges"),
-                                  "tlc_s": r["wall_s"]}
+                                  "replayed": res["executed"], "tlc_s": r["wall_s"]}
             if len(ctx.samples) < 2:
                 ctx.add_samples(res["samples"][:1])
             for m in res["mismatches"]:
@@ -217,7 +235,9 @@ def run(ctx):
             with open(t) as f:
                 for line in f:
                     out.write(line)
+            os.remove(t)  # (the traces of a thorough run are gigabytes: keep one copy, and only while needed)
     jobs = [("replay", p) for p in split_trace(allreplay, 30000, os.path.join(ctx.work, "chunk-replay"))]
+    os.remove(allreplay)
     jobs += [("random", p) for p in split_trace(rtrace, 6000, os.path.join(ctx.work, "chunk-random"))]
     lines_validated = 0
     with ThreadPoolExecutor(par) as ex:
